@@ -1,6 +1,7 @@
 import LeptosModel.Model.Reactive
 import LeptosModel.Model.ReactiveOld
 import LeptosModel.Proofs.ReactiveConv
+import LeptosModel.Proofs.ReactiveLog
 /-!
 # C02 — effects converge to the current state under every task schedule
 -/
@@ -133,6 +134,30 @@ theorem C02_effects_converge_readonly :
   simp only [effCurrent, Bool.and_eq_true, bne_iff_ne, ne_eq, List.all_eq_true, beq_iff_eq]
   exact ⟨hruns, fun z hz => hvals z hz⟩
 
+/-- stronger than idle: at ANY point between two operations, a read-only effect without a pending
+notification (`chan = false`: its task has nothing to do) is current -/
+theorem C02_unnotified_effect_current :
+    ∀ (p : Prog) (ops : List Op), WF p = true → progNoUntracked p = true → opsNoLifecycle ops = true →
+      ∀ i, isEff p i = true → effReadOnly p i = true → ((run p ops).get i).chan = false →
+        effCurrent p (run p ops) i = true := by
+  intro p ops hwf ht hops i hi hro hch
+  have hplain : ∀ o ∈ ops, o.plain = true := by
+    intro o ho
+    simp only [opsNoLifecycle, List.all_eq_true] at hops
+    have := hops o ho
+    cases o <;> simp_all [Op.plain]
+  have hq := run_quiet hwf (memoOK_of_wf hwf) (effOK_of_wf hwf ht) ops
+  have hk : ((run p ops).get i).kind = .eff := by
+    simp only [isEff] at hi
+    cases hp : p[i]? with
+    | none => rw [hp] at hi; cases hi
+    | some d =>
+      rw [hq.inv.kind i d hp]
+      cases d <;> simp_all [kindOf]
+  obtain ⟨hruns, hvals⟩ := effect_current_of_unnotified hwf ht ops hplain i hk hro hch
+  simp only [effCurrent, Bool.and_eq_true, bne_iff_ne, ne_eq, List.all_eq_true, beq_iff_eq]
+  exact ⟨hruns, fun z hz => hvals z hz⟩
+
 /-- corollary: if no effect of the program writes, all effects are current at idle -/
 theorem C02_effects_converge_nowrite :
     ∀ (p : Prog) (ops : List Op), WF p = true → progNoUntracked p = true → opsNoLifecycle ops = true →
@@ -199,6 +224,76 @@ example :
     ready (run c02Prog [.idle, .set 0 2, .idle, .set 0 5, .idle]) = [] ∧
     ((run c02Prog [.idle, .set 0 2, .idle, .set 0 5, .idle]).get 3).runs = 3 ∧
     effCurrent c02Prog (run c02Prog [.idle, .set 0 2, .idle, .set 0 5, .idle]) 3 = true := by
+  decide +kernel
+
+/-! ## lifecycle clauses: a disposed / paused effect never runs (all WF programs, all histories) -/
+
+theorem run_append (p : Prog) (a b : List Op) :
+    run p (a ++ b) = b.foldl (fun s o => (step p s o).1) (run p a) := by
+  simp only [run, List.foldl_append]
+
+theorem isEff_kind {p : Prog} {s : State} (h : InvR p s) {e : Nat} (he : isEff p e = true) :
+    (s.get e).kind = .eff := by
+  simp only [isEff] at he
+  cases hp : p[e]? with
+  | none => rw [hp] at he; cases he
+  | some d =>
+    rw [h.kind e d hp]
+    cases d <;> simp_all [kindOf]
+
+/-- **disposed effects never run**: after `.dispose e` no `Ev.ran e` is ever logged again, whatever
+happens later (writes, reads, polls, pause / resume, further disposes). -/
+theorem C02_disposed_never_runs :
+    ∀ (p : Prog) (ops₁ ops₂ : List Op) (e : Nat), WF p = true → isEff p e = true →
+      ∃ suf, (run p (ops₁ ++ [.dispose e] ++ ops₂)).log = (run p (ops₁ ++ [.dispose e])).log ++ suf ∧
+        Ev.ran e ∉ suf := by
+  intro p ops₁ ops₂ e hwf he
+  rw [run_append p (ops₁ ++ [Op.dispose e]) ops₂]
+  have ht := run_topJ (memoOK_of_wf hwf) (effOKU_of_wf hwf) (ops₁ ++ [Op.dispose e])
+  have hk := isEff_kind ht.quiet.inv he
+  refine norun_suffix (dead := true) hwf ops₂ (fun h => by cases h) _ ht hk ?_
+  simp only [if_true]
+  -- the dispose step leaves `alive = false`
+  rw [run_append p ops₁ [Op.dispose e]]
+  have ht0 := run_topJ (memoOK_of_wf hwf) (effOKU_of_wf hwf) ops₁
+  have hk0 := isEff_kind ht0.quiet.inv he
+  have hlt : e < (run p ops₁).nodes.length := (run p ops₁).lt_of_kind_ne (by rw [hk0]; simp)
+  generalize run p ops₁ = s at hk0 hlt
+  simp only [List.foldl_cons, List.foldl_nil, step, hk0, beq_self_eq_true, Bool.true_and]
+  cases ha : (s.get e).alive with
+  | false => simp [ha]
+  | true =>
+    simp only [if_true]
+    split
+    · rw [State.emit_get, State.get_upd_same _ _ hlt]
+    · rw [State.get_upd_same _ _ hlt]
+
+/-- **paused effects never run**: between `.pause e` and the next `.resume e` no `Ev.ran e` is logged. -/
+theorem C02_paused_never_runs :
+    ∀ (p : Prog) (ops₁ ops₂ : List Op) (e : Nat), WF p = true → isEff p e = true →
+      (∀ o ∈ ops₂, o ≠ .resume e) →
+      ∃ suf, (run p (ops₁ ++ [.pause e] ++ ops₂)).log = (run p (ops₁ ++ [.pause e])).log ++ suf ∧
+        Ev.ran e ∉ suf := by
+  intro p ops₁ ops₂ e hwf he hres
+  rw [run_append p (ops₁ ++ [Op.pause e]) ops₂]
+  have ht := run_topJ (memoOK_of_wf hwf) (effOKU_of_wf hwf) (ops₁ ++ [Op.pause e])
+  have hk := isEff_kind ht.quiet.inv he
+  refine norun_suffix (dead := false) hwf ops₂ (fun _ => hres) _ ht hk ?_
+  simp only [Bool.false_eq_true, if_false]
+  rw [run_append p ops₁ [Op.pause e]]
+  have ht0 := run_topJ (memoOK_of_wf hwf) (effOKU_of_wf hwf) ops₁
+  have hk0 := isEff_kind ht0.quiet.inv he
+  have hlt : e < (run p ops₁).nodes.length := (run p ops₁).lt_of_kind_ne (by rw [hk0]; simp)
+  generalize run p ops₁ = s at hk0 hlt
+  simp only [List.foldl_cons, List.foldl_nil, step, hk0, beq_self_eq_true, if_true]
+  rw [State.get_upd_same _ _ hlt]
+
+/-- non-vacuity: the effect of `c02Prog` runs once, is disposed, and a later write + idle does not run it;
+paused: the write during the pause is not replayed, after `resume` + write it runs again -/
+example :
+    ((run c02Prog [.idle, .dispose 3, .set 0 2, .idle]).get 3).runs = 1 ∧
+    ((run c02Prog [.idle, .pause 3, .set 0 2, .idle]).get 3).runs = 1 ∧
+    ((run c02Prog [.idle, .pause 3, .set 0 2, .idle, .resume 3, .set 0 5, .idle]).get 3).runs = 2 := by
   decide +kernel
 
 end Leptos.Reactive
